@@ -472,7 +472,10 @@ inline bool run_world(World &W, Proto &P, uint64_t seed)
 		{
 			Aiou au(n, i, &ucast, &S, W.t_unicast);
 			Aiou ab(n, i, &bcast, &S, W.t_bcast);
-			CachinKursawePetzoldShoupRBC rbc(n, t, i, &ab, aiounicast::aio_scheduler_roundrobin, W.t_bcast);
+			// resilience of the broadcast layer: the largest t' <= t with 3t' < n (differs from t only in the 2t < n <= 3t configurations)
+			size_t trbc = t;
+			while (trbc > 0 && 3 * trbc >= (size_t)n) trbc--;
+			CachinKursawePetzoldShoupRBC rbc(n, trbc, i, &ab, aiounicast::aio_scheduler_roundrobin, W.t_bcast);
 			rbc.setID("c15");
 			P.make(i);
 			Mpz tmp;
